@@ -7,6 +7,7 @@ import (
 	"fmt"
 	"io"
 	"os"
+	"path/filepath"
 	"sort"
 	"sync"
 	"sync/atomic"
@@ -93,7 +94,16 @@ func Build(text string, debug bool) *Result {
 		return r
 	case <-time.After(BuildDeadline):
 		hung.Store(true)
+		dumpHung(text)
 		return &Result{Hung: true}
+	}
+}
+
+// dumpHung keeps the text on which yaccgo is stuck (VERIF_HANG_DUMP names a
+// directory), so that the input can be handed to C13's replay.
+func dumpHung(text string) {
+	if d := os.Getenv("VERIF_HANG_DUMP"); d != "" {
+		os.WriteFile(filepath.Join(d, fmt.Sprintf("hung-%d.y", os.Getpid())), []byte(text), 0o644)
 	}
 }
 
@@ -135,7 +145,9 @@ type Adapt struct {
 // as an infrastructure problem.
 type ErrRepresentation struct{ Msg string }
 
-func (e *ErrRepresentation) Error() string { return "harness assumption about yaccgo's symbol table does not hold: " + e.Msg }
+func (e *ErrRepresentation) Error() string {
+	return "harness assumption about yaccgo's symbol table does not hold: " + e.Msg
+}
 
 func NewAdapt(root *parser.RootVistor) (*Adapt, error) {
 	l := root.LALR1
@@ -292,10 +304,7 @@ func PackedLookup(l *lalr.LALR1, state, a int) (v int, err error) {
 	}()
 	nTerm := len(l.G.VtSet)
 	off := l.OffsetTable[state] + a
-	if off < 0 {
-		return l.GenErrorCode(), nil
-	}
-	if off >= len(l.CheckTable) || l.CheckTable[off] != state {
+	if off < 0 || off >= len(l.CheckTable) || l.CheckTable[off] != state {
 		if a > nTerm {
 			return l.GoToDef[a-nTerm-1], nil
 		}
@@ -414,6 +423,7 @@ func Generate(text, variant, outfile string) GenResult {
 		return r
 	case <-time.After(BuildDeadline):
 		hung.Store(true)
+		dumpHung(text)
 		return GenResult{Hung: true}
 	}
 }
